@@ -38,6 +38,11 @@ Import ListNotations.
 Require Import RV.Model.C11Base RV.Model.RwLockCond RV.Model.RwLockFile.
 Open Scope Z_scope.
 """
+HEADER_CACHE = """From Coq Require Import List ZArith Bool Uint63.
+Import ListNotations.
+Require Import RV.Model.C11Base RV.Model.FlockInode.
+Open Scope Z_scope.
+"""
 HEADER_DICT = """From Coq Require Import List ZArith Bool Uint63.
 Import ListNotations.
 Require Import RV.Model.C11Base RV.Model.RwLockCond RV.Model.LockDict.
@@ -93,6 +98,29 @@ def pack_sched(sch):
     return ws
 
 
+def source_fileops():
+    """os.* / shutil.* calls in the source of CollectionPartLock._acquire_cache_lock other than os.path.join
+    (directories are made through self._storage._makedirs_synced; open/flock/close live in pathutils.RwLock)."""
+    import ast
+    src = open(os.path.join(core.REPO, "radicale/storage/multifilesystem/lock.py")).read()
+    bad = []
+    for node in ast.walk(ast.parse(src)):
+        if isinstance(node, ast.FunctionDef) and node.name == "_acquire_cache_lock":
+            for c in ast.walk(node):
+                if isinstance(c, ast.Call):
+                    f, parts = c.func, []
+                    while isinstance(f, ast.Attribute):
+                        parts.append(f.attr)
+                        f = f.value
+                    if isinstance(f, ast.Name):
+                        parts.append(f.id)
+                    name = ".".join(reversed(parts))
+                    if (name.startswith("os.") or name.startswith("shutil.") or name.split(".")[-1] in (
+                            "remove", "unlink", "rename", "replace", "rmtree", "rmdir", "truncate")) and name != "os.path.join":
+                        bad.append(name)
+    return bad
+
+
 def enc_progs(kind, progs):
     if kind == "cond":
         return "[%s]" % ";".join(enc_zl([cyc(c) for c in p]) for p in progs)
@@ -109,9 +137,9 @@ def enc_in_full(kind):
     return lambda pc: "(%s, %s)" % (enc_progs(kind, pc[0]), enc_natl(pc[1]))
 
 
-FN = {"cond": "run_case_z", "file": "frun_case_z", "dict": "lrun_case_z"}
-FN_FULL = {"cond": "run_case", "file": "frun_case", "dict": "lrun_case"}
-HDR = {"cond": HEADER_COND, "file": HEADER_FILE, "dict": HEADER_DICT}
+FN = {"cond": "run_case_z", "file": "frun_case_z", "dict": "lrun_case_z", "cache": "crun_case_z"}
+FN_FULL = {"cond": "run_case", "file": "frun_case", "dict": "lrun_case", "cache": "crun_case"}
+HDR = {"cond": HEADER_COND, "file": HEADER_FILE, "dict": HEADER_DICT, "cache": HEADER_CACHE}
 
 
 def locate_difference(ctx, kind, case):
@@ -177,6 +205,12 @@ def work_list(ctx):
                   [[("r", "/u/c/", "x")], [("r", "/u/c/", "")], [("r", "/u/c/", "x")]],
                   [[("r", "/u/c/", ""), ("w", "/u/c/", "")], [("r", "/u/c/", "")]]):
         W.append(("enum", "comp", progs, (ccap, 0, ctx.n(120, 3000), ctx.rng.randrange(10 ** 9))))
+    # ---- the cache lock of the file-lock back-end: the real CollectionPartLock._acquire_cache_lock, kernel keyed by inode
+    kcap = ctx.n(2000, 40000)
+    for progs in ([[5], [5], [5]], [[5], [7]], [[5], [5]], [[5], [5], [7]], [[5, 5], [5]]):
+        W.append(("enum", "cache", progs, (kcap if progs == [[5], [5], [5]] else cap, keep, extra, ctx.rng.randrange(10 ** 9))))
+    for progs in (("r", [[5], [5], [5]]), ("r", [[5], [5], [7]]), ("r", [[5], [9]])):       # storage lock held in mode r
+        W.append(("rand", "cache", progs, (ctx.n(150, 3000), ctx.rng.randrange(10 ** 9))))
     # ---- larger configurations: seeded random schedules
     rng = ctx.rng
     big = []
@@ -206,8 +240,9 @@ def run_task(task):
     seen = set()
     contended = 0
     steps = 0
-    nthreads = len(progs)
+    nthreads = len(progs[1]) if (progs and isinstance(progs[0], str)) else len(progs)
     exhausted = False
+    fileops = set()
 
     monitored_only = 0
 
@@ -217,6 +252,7 @@ def run_task(task):
         if key in seen:
             return
         seen.add(key)
+        fileops.update(r.get("fileops", []))
         steps += len(r["schedule"])
         cont = any(len(en) < nthreads for en in r["enabled"][:max(1, len(r["enabled"]) // 2)])
         contended += 1 if cont else 0
@@ -251,7 +287,8 @@ def run_task(task):
             take(X.random_schedule(kind, progs, rng))
             if violation:
                 break
-    return task, cases, violation, dict(steps=steps, contended=contended, exhausted=exhausted, monitored_only=monitored_only)
+    return task, cases, violation, dict(steps=steps, contended=contended, exhausted=exhausted, monitored_only=monitored_only,
+                                        fileops=sorted(fileops))
 
 
 # ------------------------------------------------------------------------------------------ real threads / processes
@@ -305,6 +342,57 @@ def stress_threads(ctx, n_threads, n_cycles, timeout=60):
         return bad[0] if bad else None
     finally:
         sys.setswitchinterval(old)
+
+
+def stress_cache_lock(ctx, n_threads, n_cycles, timeout=90):
+    """Real threads, real flock, separate open file descriptions: the real CollectionPartLock._acquire_cache_lock of a
+    real multifilesystem.Storage, storage lock held in mode r, two keys.  Returns a violation text or None."""
+    import logging
+    from radicale import config
+    from radicale.storage import multifilesystem
+    logging.getLogger("radicale").setLevel(logging.CRITICAL)
+    base = tempfile.mkdtemp(prefix="rv-c11cl-")
+    old = sys.getswitchinterval()
+    sys.setswitchinterval(1e-6)
+    try:
+        conf = config.load()
+        conf.update({"storage": {"type": "multifilesystem", "filesystem_folder": base, "_filesystem_fsync": "False"}},
+                    "c11", privileged=True)
+        storage = multifilesystem.Storage(conf)
+        guard = threading.Lock()
+        inside = {}
+        bad = []
+
+        def worker(i):
+            rng = random.Random(ctx.seed * 104729 + i)
+            try:
+                for _ in range(n_cycles):
+                    path, ns = rng.choice([("/u/c/", ""), ("/u/c/", ""), ("/u/c/", "x")])
+                    coll = multifilesystem.Collection(storage, path)
+                    with storage.acquire_lock("r", "user"):
+                        with coll._acquire_cache_lock(ns):
+                            with guard:
+                                if inside.get((path, ns)):
+                                    bad.append("two threads inside the cache section of %r" % ((path, ns),))
+                                inside[(path, ns)] = 1
+                            if rng.random() < 0.5:
+                                time.sleep(0.0002)
+                            with guard:
+                                inside[(path, ns)] = 0
+            except Exception as e:   # noqa: B902
+                bad.append("exception %r" % (e,))
+        ths = [threading.Thread(target=worker, args=(i,), daemon=True) for i in range(n_threads)]
+        t0 = time.time()
+        for t in ths:
+            t.start()
+        for t in ths:
+            t.join(max(0.1, timeout - (time.time() - t0)))
+        if any(t.is_alive() for t in ths):
+            return "cache-lock threads did not finish within %ds" % timeout
+        return bad[0] if bad else None
+    finally:
+        sys.setswitchinterval(old)
+        shutil.rmtree(base, ignore_errors=True)
 
 
 def stress_processes(ctx, n_procs, n_cycles, n_threads=2):
@@ -371,30 +459,45 @@ def run(ctx):
     # ---------------------------------------------------------------- enumerate / sample schedules on the real classes
     W = work_list(ctx)
     ctx.log("scheduling %d tasks" % len(W))
-    per_kind = {"cond": [], "file": [], "dict": [], "comp": []}
+    per_kind = {"cond": [], "file": [], "dict": [], "comp": [], "cache": []}
+    cache_fileops = set()
     first_violation = None
     steps = 0
     with concurrent.futures.ProcessPoolExecutor(max_workers=16) as ex:
         for task, cases, violation, st in ex.map(run_task, W, chunksize=1):
             tkind, kind, progs, param = task
             steps += st["steps"]
+            if kind == "cache":
+                cache_fileops.update(st["fileops"])
             if st["monitored_only"]:
                 ctx.count("schedules-monitored-only:%s" % kind, st["monitored_only"])
                 ctx.evaluations += st["monitored_only"]
             ctx.count("schedules:%s:%s" % (kind, tkind), len(cases))
-            ctx.count("schedules:%s:threads=%d" % (kind, len(progs)), len(cases))
+            ctx.count("schedules:%s:threads=%d" % (kind, len(progs[1]) if isinstance(progs[0], str) else len(progs)), len(cases))
             if tkind == "enum":
                 ctx.count("programs-%s:%s:%dx%d" % ("exhausted" if st["exhausted"] else "capped", kind, len(progs),
                                                     max(len(p[1]) if kind == "file" else len(p) for p in progs)))
+            nthr = len(progs[1]) if isinstance(progs[0], str) else len(progs)
             for sched, trace, cont in cases:
                 ctx.case((kind, repr(progs), tuple(sched)), nontrivial=cont,
                          sample=dict(lock=kind, programs=progs, schedule=sched) if len(ctx.samples) < 6 and cont and len(sched) > 12 else None)
-                if kind != "comp":        # the composition is monitored only; the three classes are compared with the model
+                if kind != "comp" and not (kind == "cache" and isinstance(progs[0], str)):
+                    # (the composition and the storage-lock-held variant are monitored only)
                     per_kind[kind].append(((progs, sched), trace))
             if violation is not None and first_violation is None:
                 first_violation = violation
     ctx.extra["scheduler_steps_on_real_classes"] = steps
     ctx.traces_validated = sum(len(v) for k, v in per_kind.items() if k != "comp")
+    # the cache lock of the file-lock back-end is exclusive only because the lock file is never taken away
+    # (Props/C11.v: C11_cachelock_exclusive vs C11_cachelock_unlink_refuted): its file operations must stay
+    # {makedirs, open, flock, close} -- observed on every schedule, and read off the source
+    ctx.extra["cache_lock_fileops_observed"] = sorted(cache_fileops)
+    ok_ops = cache_fileops == {"open", "flock", "close"}
+    ctx.obligation("fileops:_acquire_cache_lock(observed)", ok_ops,
+                   "" if ok_ops else "file operations on the lock file: %r, expected exactly open/flock/close" % sorted(cache_fileops))
+    bad_calls = source_fileops()
+    ctx.obligation("fileops:_acquire_cache_lock(source)", not bad_calls,
+                   "" if not bad_calls else "CollectionPartLock._acquire_cache_lock calls %r" % (bad_calls,))
     ctx.log("ran %d schedules (%d steps) on the real classes, %d of them compared with the model" % (
         ctx.evaluations, steps, ctx.traces_validated))
     if first_violation is not None:
@@ -404,7 +507,7 @@ def run(ctx):
                            note="./check C11 --replay <this file> re-runs this schedule on the real class and prints the trace"))
 
     # ---------------------------------------------------------------- model vs implementation, state after every step
-    for kind in ("cond", "file", "dict"):
+    for kind in ("cond", "file", "dict", "cache"):
         cases = per_kind[kind]
         if not cases:
             continue
@@ -430,6 +533,12 @@ def run(ctx):
     if v:
         ctx.violation("C11 real threads: " + v, dict(kind="real-threads", threads=8, cycles=ctx.n(150, 1500), seed=ctx.seed,
                                                       note="non-deterministic; re-run ./check C11"))
+    v = stress_cache_lock(ctx, 6, ctx.n(150, 1500))
+    ctx.count("real-cache-lock-cycles", 6 * ctx.n(150, 1500))
+    if v:
+        ctx.violation("C11 real flock, cache lock of the file-lock back-end: " + v,
+                      dict(kind="real-cache-lock", threads=6, cycles=ctx.n(150, 1500), seed=ctx.seed,
+                           note="non-deterministic; re-run ./check C11"))
     v, tot = stress_processes(ctx, 8, ctx.n(100, 600))
     ctx.extra["multi_process"] = tot
     ctx.count("real-process-cycles", tot.get("cycles", 0))
@@ -450,6 +559,8 @@ def replay(ctx, path):
         progs = [(p, [tuple(c) for c in prog]) for p, prog in progs]
     elif kind in ("cond", "comp"):
         progs = [[tuple(c) for c in prog] for prog in progs]
+    elif kind == "cache" and progs and isinstance(progs[0], str):
+        progs = (progs[0], progs[1])
     r = X.run_schedule(kind, progs, rp["schedule"], monitor=True, extend=False)
     for i, o in enumerate(r["trace"]):
         print("step %2d %s-> %s" % (i, ("thread %d " % r["schedule"][i - 1]) if 0 < i <= len(r["schedule"]) else "init     ", o))
